@@ -2795,7 +2795,10 @@ define_function(imphash)
     dll_name = (char*) yr_malloc(dll_name_len + 1);
 
     if (!dll_name)
+    {
+      yr_md5_final(digest, &ctx);
       return ERROR_INSUFFICIENT_MEMORY;
+    }
 
     strlcpy(dll_name, dll->name, dll_name_len + 1);
 
@@ -2812,7 +2815,11 @@ define_function(imphash)
       final_name = (char*) yr_malloc(final_name_len + 1);
 
       if (final_name == NULL)
-        break;
+      {
+        yr_free(dll_name);
+        yr_md5_final(digest, &ctx);
+        return ERROR_INSUFFICIENT_MEMORY;
+      }
 
       sprintf(final_name, first ? "%s.%s" : ",%s.%s", dll_name, func->name);
 
@@ -2850,7 +2857,10 @@ define_function(imphash)
 
   digest_ascii[YR_MD5_LEN * 2] = '\0';
 
-  yr_hash_table_add(pe->hash_table, "imphash", NULL, digest_ascii);
+  // The cache owns digest_ascii from now on.
+  FAIL_ON_ERROR_WITH_CLEANUP(
+      yr_hash_table_add(pe->hash_table, "imphash", NULL, digest_ascii),
+      yr_free(digest_ascii));
 
   return_string(digest_ascii);
 }
